@@ -721,9 +721,10 @@ Qed.
 
 Definition one_schema (cs : list (option N * schema * content)) : Prop := forall i j, schema_at cs i = schema_at cs j.
 
-Lemma oracle_op_model cs o : one_schema cs -> oracle_op cs o (model_op cs o) = true.
+Lemma oracle_op_model cs o : one_schema cs ->
+  match o with OCpD _ _ _ _ | ORvD _ _ _ _ => True | _ => oracle_op cs o (model_op cs o) = true end.
 Proof.
-  intros S. destruct o as [hd c m | hd c m | tip onto pl m]; cbn [oracle_op model_op].
+  intros S. destruct o as [hd c m | hd c m | tip onto pl m | hd c d2 u | hd c d2 u]; try exact I; cbn [oracle_op model_op].
   - destruct (data_at (hist_of cs) hd) as [dh|] eqn:Eh; [|reflexivity].
     destruct (first_parent (hist_of cs) c) as [pi|] eqn:Fp; [|reflexivity].
     destruct (parent_data (hist_of cs) c) as [dp|] eqn:Ep; [|reflexivity].
@@ -756,10 +757,61 @@ Proof.
       apply andb_true_iff. split; [apply ext_eqb_intro; intros k; apply get_norm | apply sorted_canonical; apply sorted_norm].
 Qed.
 
+(* ---- operations with unrelated uncommitted work around ---- *)
+Lemma oracle_op_with_dirty cs o r w k : oracle_op cs o (with_dirty r w k) = oracle_op cs o r.
+Proof. destruct o, r; reflexivity. Qed.
+
+Lemma of_pres2_kind_ne7 sr : (k_kind (of_pres2 sr) =? 7) = false.
+Proof. destruct sr as [s [d| | |d|d]]; reflexivity. Qed.
+
+Lemma model_op_cp_ne7 cs hd c m : (k_kind (model_op cs (OCp hd c m)) =? 7) = false.
+Proof.
+  cbn [model_op]. destruct (data_at (hist_of cs) hd); [|reflexivity]. destruct (first_parent (hist_of cs) c); [|reflexivity].
+  destruct (parent_data (hist_of cs) c); [|reflexivity]. destruct (data_at (hist_of cs) c); [|reflexivity]. apply of_pres2_kind_ne7.
+Qed.
+Lemma model_op_rv_ne7 cs hd c m : (k_kind (model_op cs (ORv hd c m)) =? 7) = false.
+Proof.
+  cbn [model_op]. destruct (data_at (hist_of cs) hd); [|reflexivity]. destruct (first_parent (hist_of cs) c); [|reflexivity].
+  destruct (parent_data (hist_of cs) c); [|reflexivity]. destruct (data_at (hist_of cs) c); [|reflexivity]. apply of_pres2_kind_ne7.
+Qed.
+
+Lemma refused_ok s dh d2 :
+  k_restored (refused_obs s dh d2) && k_dirty_kept (refused_obs s dh d2)
+  && ext_eqb (k_data (refused_obs s dh d2)) dh && ext_eqb (k_work (refused_obs s dh d2)) (set_t2 dh d2) = true.
+Proof.
+  unfold refused_obs, with_dirty, mk. cbn [k_restored k_dirty_kept k_data k_work andb].
+  rewrite (ext_eqb_intro (norm dh) dh (fun k => get_norm dh k)).
+  rewrite (ext_eqb_intro (norm (set_t2 dh d2)) (set_t2 dh d2) (fun k => get_norm _ k)). reflexivity.
+Qed.
+
+Lemma oracle_op_dirty_model cs o : one_schema cs -> oracle_op_dirty cs o (model_op_dirty cs o) = true.
+Proof.
+  intros S. destruct o as [hd c m | hd c m | tip onto pl m | hd c d2 u | hd c d2 u];
+    try (cbn [oracle_op_dirty model_op_dirty]; first [exact (oracle_op_model cs (OCp hd c m) S) | exact (oracle_op_model cs (ORv hd c m) S) | exact (oracle_op_model cs (ORb tip onto pl m) S)]).
+  - cbn [oracle_op_dirty model_op_dirty]. destruct (data_at (hist_of cs) hd) as [dh|] eqn:Eh; [|reflexivity].
+    destruct (t2_dirty dh d2 || u) eqn:D.
+    + change (k_kind (refused_obs (schema_at cs hd) dh d2) =? 7) with true. cbv iota. cbn [andb].
+      pose proof (refused_ok (schema_at cs hd) dh d2) as R. rewrite <- !andb_assoc in *. exact R.
+    + rewrite model_op_cp_ne7, (oracle_op_model cs (OCp hd c Stop) S). reflexivity.
+  - cbn [oracle_op_dirty model_op_dirty]. destruct (data_at (hist_of cs) hd) as [dh|] eqn:Eh; [|reflexivity].
+    destruct (parent_data (hist_of cs) c) as [dp|] eqn:Ep; [|reflexivity].
+    destruct (data_at (hist_of cs) c) as [dc|] eqn:Ec; [|reflexivity].
+    destruct (t2_dirty dh d2 && touches2 dp dc) eqn:D.
+    + change (k_kind (refused_obs (schema_at cs hd) dh d2) =? 7) with true. cbv iota. cbn [andb].
+      pose proof (refused_ok (schema_at cs hd) dh d2) as R. rewrite <- !andb_assoc in *. exact R.
+    + pose proof (model_op_rv_ne7 cs hd c Stop) as N7. pose proof (oracle_op_model cs (ORv hd c Stop) S) as O.
+      destruct (k_kind (model_op cs (ORv hd c Stop)) =? 0) eqn:K0.
+      * assert (K : k_kind (with_dirty (model_op cs (ORv hd c Stop)) (norm (set_t2 (k_data (model_op cs (ORv hd c Stop))) d2)) true)
+                    = k_kind (model_op cs (ORv hd c Stop))) by reflexivity.
+        rewrite K, N7, K0, oracle_op_with_dirty, O. cbn [andb with_dirty k_dirty_kept k_work k_data].
+        apply ext_eqb_intro. intros k. apply get_norm.
+      * rewrite N7, K0, O. reflexivity.
+Qed.
+
 Theorem oracle_on_model_partial cs ops : one_schema cs -> oracle (cs, ops) (model_obs (cs, ops)) = true.
 Proof.
   intros S. unfold oracle, model_obs. cbn [fst snd].
-  induction ops as [|o ops IH]; [reflexivity|]. cbn [map oracle_ops]. rewrite (oracle_op_model cs o S), IH. reflexivity.
+  induction ops as [|o ops IH]; [reflexivity|]. cbn [map oracle_ops]. rewrite (oracle_op_dirty_model cs o S), IH. reflexivity.
 Qed.
 
 (* ---------------- schema-changing commits ---------------- *)
